@@ -460,8 +460,9 @@ func HarnessC18Values() {
 // ---- widthratio: nearest integer to cur/max*width (either tie rule) ----
 func HarnessC18Widthratio() {
 	// 8-bit symbolic operands (zero-extended): keeps the int->float conversions cheap for the solver
-	cur, max, width := int(verifByte()), int(verifByte()), int(verifByte())
+	cur, max, width := int(verifByte())-128, int(verifByte()), int(verifByte()) // cur may be negative
 	lim := verifParam("range", 50)
+	verifAssume(cur >= -lim)
 	verifAssume(cur <= lim)
 	verifAssume(max >= 1)
 	verifAssume(max <= lim)
